@@ -5,6 +5,7 @@ import (
 	"bytes"
 	"encoding/json"
 	"fmt"
+	"github.com/dtn7/dtn7-go/verif/par"
 	"io"
 	"os"
 	"os/exec"
@@ -99,7 +100,7 @@ func runPoolSkip(kind string, n int, tasks [][]byte, skip func(i int) bool, hand
 			}()
 			for {
 				i := int(atomic.AddInt64(&next, 1))
-				if i >= len(tasks) {
+				if i >= len(tasks) || par.Expired() {
 					return
 				}
 				if skip != nil && skip(i) {
